@@ -264,7 +264,17 @@ def run_check(spec, tier="quick", replay=None):
 
     # 7. a broken obligation / correspondence without a failing input yet: search, then report anyway
     broken = bool(proof_broken) or disagreements > 0
-    if broken and not violations:
+    known = core.known_findings(pid)
+
+    def matches_known(v):
+        for k in known:
+            mt = k.get("match", {})
+            if mt and all(str(v["signature"].get(a)) == str(b) for a, b in mt.items()):
+                return k
+        return None
+
+    # violations that are listed findings do not excuse a broken obligation / correspondence
+    if broken and not [v for v in violations if not matches_known(v)]:
         found = []
         try:
             found = spec.search(ctx) or []
@@ -298,15 +308,9 @@ def run_check(spec, tier="quick", replay=None):
             add_violation("unproved", "no-failing-input-found", payload, {"msg": "no-failing-input-found"})
 
     # decision
-    known = core.known_findings(pid)
     reported, known_hits = [], []
     for v in violations:
-        hit = None
-        for k in known:
-            mt = k.get("match", {})
-            if all(str(v["signature"].get(a)) == str(b) for a, b in mt.items()):
-                hit = k
-                break
+        hit = matches_known(v)
         if hit:
             known_hits.append((hit, v))
         else:
